@@ -178,6 +178,38 @@ def run(ctx):
             ctx.replayed()
     if vectors:
         ctx.sample({"kind": "split vector", **{k: vectors[0][k] for k in ("mode", "F", "D", "E", "sel")}})
+    # ---- PTM4 against a celerity computed HERE (Newton's iteration on w^2 = g k tanh(k d)), not the library's own: at intermediate
+    # depths a wind component 0.4 % above the celerity of a bin puts it in the wind sea, 0.4 % below leaves it in the swell
+    # (the library's dispersion approximation is good to 0.1 %, so both are decidable)
+    import math
+    g = 9.81
+    fgrid = np.array([0.08, 0.11, 0.15, 0.19, 0.24, 0.3])
+    dgrid = np.arange(0.0, 360.0, 45.0)
+    for depth in (6.0, 12.0, 20.0, 35.0, 80.0):
+        for kf in range(len(fgrid)):
+            w2 = (2 * math.pi * fgrid[kf]) ** 2
+            kex = w2 / g
+            for _ in range(60):
+                t = math.tanh(kex * depth)
+                kex -= (g * kex * t - w2) / (g * t + g * kex * depth * (1 - t * t))
+            cex = 2 * math.pi * fgrid[kf] / kex
+            jd = (kf * 3) % len(dgrid)
+            da4 = xr.DataArray(np.full((len(fgrid), len(dgrid)), 2.0) + np.arange(len(dgrid))[None, :], coords={"freq": fgrid, "dir": dgrid}, dims=("freq", "dir"), name="efth")
+            for sign, part_expected in ((+1, 0), (-1, 1)):
+                ctx.case(("ptm4-independent-celerity", depth, kf, sign), True)
+                try:
+                    out = da4.spec.partition.ptm4(wspd=xr.DataArray(cex * (1 + 0.004 * sign)), wdir=xr.DataArray(float(dgrid[jd])), dpt=xr.DataArray(depth), agefac=1.0)
+                    v = np.asarray(out.transpose("part", "freq", "dir").values, float)[:, kf, jd]
+                    ok = v[part_expected] == da4.values[kf, jd] and v[1 - part_expected] == 0.0
+                    what = "bin holds %s in (wind sea, swell)" % (v.tolist(),)
+                except Exception as ex:  # noqa
+                    ok, what = False, "raised %s: %s" % (type(ex).__name__, str(ex)[:120])
+                if ok:
+                    ctx.replayed()
+                else:
+                    ctx.violation({"mode": "ptm4", "clause": "membership-vs-independent-celerity"},
+                                  "ptm4 at depth %g m: bin (%.2f Hz, %g deg) with the wind component %.1f %% %s its celerity %.4f m/s: %s" %
+                                  (depth, fgrid[kf], dgrid[jd], 0.4, "above" if sign > 0 else "below", cex, what), {"depth": depth})
     # ---- "overlapping boxes are rejected" for every PAIR of the list, in whatever order the boxes are given
     import itertools
     freq3 = np.round(np.arange(0.05, 0.41, 0.025), 3)
